@@ -124,7 +124,7 @@ CHECKS = {
          'calls are executed on one path (equal-length re-layout first) with the second result compared to a fresh run. (4) The compiled code in ONE process: the same '
          'file analysed alone vs. after / interleaved with an equal-length file of different line structure, after stress predecessors (deep, wide at every level, '
          'unparsable), repeated, with patterns reversed, after another category; a directory with equal-length siblings.',
-    note='Concurrent calls from several threads and state inside the regex crate are outside the claim (neither engine models threads): stated in DESIGN.md section 7.',
+    note='Concurrent calls from several threads are outside the CLAIM (neither engine models threads); when the crate has process-wide state the compiled code is additionally run from 8 threads and a mismatch is reported, but silence there proves nothing. State inside the regex crate is outside too. DESIGN.md 7, 10.8.',
     technique='symbolic execution of MIR with nondeterministic container iteration and modelled process-wide state + native call-sequence differential', design='6/C15, 7, 10.8'),
  'C16': dict(
     text='analyze_dir (3 categories) executed from MIR on a directory containing a file whose NAME is symbolic: 4..8 (thorough 1..10) characters, each a symbolic index '
